@@ -338,8 +338,12 @@ func (db *DB) safeAsyncState(s *Schema) (n int, async *Async) {
 	db.RLock()
 	defer db.RUnlock()
 	if s.asyncWritesEnabled() {
-		a := *s.AsyncWrites
-		async = &a
+		// only the settings: routineStarted is written, with the read lock
+		// held, by whoever starts the routine of a freshly enabled schema
+		async = &Async{
+			Enable:    s.AsyncWrites.Enable,
+			Threshold: s.AsyncWrites.Threshold,
+			Timeout:   s.AsyncWrites.Timeout}
 	}
 	return db.asyncw.count(s.object), async
 }
